@@ -27,9 +27,11 @@ Record kinput := {
   k_lossy : bool;        (* mode 1: the server stopped reading at some point: it saw a prefix *)
   k_srvn : nat;          (* mode 1, lossy: number of keep-alives the server had read *)
   k_script : list wres;  (* mode 2: results of the successive conn.Write calls (then (len, nil)) *)
-  k_end : Z              (* 0 no receive loop (the harness owns quit); 1 a receive loop whose read
+  k_end : Z;             (* 0 no receive loop (the harness owns quit); 1 a receive loop whose read
                             fails once the connection is gone; 2 a receive loop that is handed the
-                            server's closing tag *)
+                            server's closing tag; 3 a receive loop that is handed a stream error and
+                            whose read then fails *)
+  k_client : bool        (* the loop was started by a Client built by NewClient (interval defaulted) *)
 }.
 
 Definition dec_sel (x : sx) : option sel :=
@@ -47,12 +49,12 @@ Definition dec_wres (x : sx) : option wres :=
 
 Definition dec_input (x : sx) : option kinput :=
   match x with
-  | SL [iv; term; failat; nsucc; suffix; mode; lossy; srvn; script; en] =>
+  | SL [iv; term; failat; nsucc; suffix; mode; lossy; srvn; script; en; cl] =>
       do i <- as_z iv; do t <- as_z term; do f <- as_nat failat; do n <- as_nat nsucc;
       do s <- as_list dec_sel suffix; do c <- as_z mode; do l <- as_b lossy; do r <- as_nat srvn;
-      do w <- as_list dec_wres script; do e <- as_z en;
+      do w <- as_list dec_wres script; do e <- as_z en; do k <- as_b cl;
       Some {| k_interval := i; k_term := t; k_failat := f; k_nsucc := n; k_suffix := s;
-              k_mode := c; k_lossy := l; k_srvn := r; k_script := w; k_end := e |}
+              k_mode := c; k_lossy := l; k_srvn := r; k_script := w; k_end := e; k_client := k |}
   | _ => None
   end.
 
@@ -78,6 +80,7 @@ Definition cact_sx (c : cact) : sx :=
 Definition recv_trace (i : kinput) : list Recv.action :=
   if k_end i =? 1 then Recv.crecv 0 0 None []
   else if k_end i =? 2 then Recv.crecv 0 0 None [Recv.IClose]
+  else if k_end i =? 3 then Recv.crecv 0 0 None [Recv.IStreamError 0]
   else [].
 
 Definition schedule (i : kinput) : list sel :=
@@ -97,7 +100,8 @@ Definition fail_oracle (i : kinput) : nat -> bool :=
   else fun k => negb (Nat.eqb f 0) && Nat.eqb k f.
 
 Definition run_typed (i : kinput) : sx :=
-  let tr := keepalive (k_interval i) (fail_oracle i) (schedule i) in
+  let iv := if k_client i then client_interval (k_interval i) else k_interval i in
+  let tr := keepalive iv (fail_oracle i) (schedule i) in
   let w := wire tr in
   let wire_sx :=
     (* number of keep-alives the server read in the XML stream, and whether it read only white space *)
@@ -118,4 +122,26 @@ Definition run_typed (i : kinput) : sx :=
   SL [SL (flat_map act_sx tr); wire_sx; SL (map cact_sx ct);
       SL [Snat (Recv.count_act Recv.is_err rt); Snat (Recv.count_act Recv.is_disc rt)]].
 
-Definition run_C18 : sx -> sx := with_input dec_input run_typed.
+(* a history of Resume attempts on ONE client object, each with the description of the loop it
+   would run: only the attempts the model says start a loop contribute an observation *)
+Definition dec_attempt (x : sx) : option (attempt * kinput) :=
+  match x with
+  | SL [SZ a; inp] =>
+      do i <- dec_input inp;
+      Some (if a =? 0 then AttOk else if a =? 1 then AttConnectFails else AttHookFails, i)
+  | _ => None
+  end.
+
+Definition run_C18 (x : sx) : sx :=
+  match x with
+  | SL [SZ 99; SL atts] =>
+      match omap dec_attempt atts with
+      | Some l =>
+          SL (flat_map (fun ai => match loops_started (fst ai) with
+                                  | O => []
+                                  | S _ => [run_typed (snd ai)]
+                                  end) l)
+      | None => decode_error
+      end
+  | _ => with_input dec_input run_typed x
+  end.
